@@ -4,4 +4,4 @@ Require Import Coq.extraction.ExtrOcamlBasic.
 Require Import Coq.extraction.ExtrOcamlZBigInt.
 From TV Require Import Model.Entry.
 Extraction Language OCaml.
-Extraction "model.ml" dispatch.
+Extraction "model.ml" dispatch dispatch2.
